@@ -513,16 +513,22 @@ func (g *gImpl) deadline() string {
 	}
 	// Only run the real-time calls when a scheduled Wait() returns: a Wait that spins (an
 	// inconsistent state at rest) would leave a goroutine spinning through the shims forever.
-	if pr := g.probe(); strings.Contains(pr, "wait=spin") {
+	pr := g.probe()
+	if strings.Contains(pr, "wait=spin") {
 		return "hang"
 	}
+	// The goroutine below runs OUTSIDE the scheduler. It must have finished before the next
+	// scheduled step: a goroutine that is still inside the package later (say, woken by a long
+	// timer) would enter the shims concurrently with a scheduled thread and be taken for it.
+	// So the deadline is chosen from what a scheduled Wait() just returned at this point of rest:
+	// a closed channel - the calls return at once, the deadline is generous (a short one could
+	// fire first on a loaded machine and make select pick it); an open channel - the deadline is
+	// what the calls wait for, so it is short.
+	freshClosed := strings.Contains(pr, ":t steps=")
 	res := make(chan string, 1)
 	go func() {
-		// with count zero the call must return at once, so the deadline is generous (a short one
-		// could fire first on a loaded machine and make select pick it); with a positive count the
-		// deadline is what we wait for, so it is short
 		d := 2 * time.Millisecond
-		if g.sumRet == 0 {
+		if freshClosed {
 			d = 30 * time.Second
 		}
 		e1 := g.wg.WaitTimeout(d)
